@@ -75,6 +75,15 @@ func c12Pool(r *rand.Rand, n int) []c12Item {
 			return []bexpr.Option{bexpr.WithHookFn(h), bexpr.WithMaxExpressions(100000)}
 		}, data: fixed, descr: "hook-gosched+budget"},
 	)
+	pool = append(pool,
+		c12Item{text: `zz == "x" or any l as v { v == 3 }`, opts: func() []bexpr.Option { return []bexpr.Option{bexpr.WithUnknownValue("u")} }, data: fixed, descr: "unknown+quantifier"},
+		c12Item{text: `all objs as i, o { o.port != i and (any o.tags as t { t != "u" }) }`, opts: func() []bexpr.Option {
+			return []bexpr.Option{bexpr.WithHookFn(hookIdentity{}.Real()), bexpr.WithUnknownValue("u")}
+		}, data: fixed, descr: "unknown+hook+quantifier"},
+		c12Item{text: `any m as k, v { k == "y" and v == 2 }`, opts: func() []bexpr.Option {
+			return []bexpr.Option{bexpr.WithUnknownValue(1), bexpr.WithTagName("alt"), bexpr.WithHookFn(hookIdentity{}.Real())}
+		}, data: fixed, descr: "unknown+tag+hook+quantifier"},
+	)
 	// datum-directed random ones
 	for len(pool) < n {
 		doc := univ.GenObj(r, 4, true)
@@ -260,11 +269,71 @@ func c12FilterArrays(c *mon.Ctx) {
 	}
 }
 
+// c12FreshTypes: `matches` on values of Go types the process has never seen
+// before, met for the first time by several goroutines at once (no sequential
+// warm-up: the expected outcome is known by construction - arrays are not
+// convertible to []byte, so it is an error).
+var c12TypeSeq = 1000
+
+func c12FreshTypes(c *mon.Ctx) {
+	ev, err, pan, _ := createEval(`v matches "^a" or v not matches "b"`)
+	ev2, err2, _, _ := createEval(`any l as x { x matches "a" }`)
+	if pan != "" || err != nil || err2 != nil {
+		return
+	}
+	const G = 12
+	base := c12TypeSeq
+	c12TypeSeq += G * 8
+	var ready, done sync.WaitGroup
+	gate := make(chan struct{})
+	bad := make([]string, G)
+	ready.Add(G)
+	done.Add(G)
+	for gi := 0; gi < G; gi++ {
+		gi := gi
+		go func() {
+			defer done.Done()
+			ready.Done()
+			<-gate
+			for k := 0; k < 8; k++ {
+				// every goroutine pair shares a fresh type, and each has its own
+				n := base + (gi/2)*8 + k
+				if k%2 == 1 {
+					n = base + gi*8 + k
+				}
+				arr := reflect.New(reflect.ArrayOf(n%97+2, reflect.TypeOf(uint8(0)))).Elem()
+				typ := reflect.ArrayOf(n, reflect.TypeOf(uint8(0)))
+				arr = reflect.New(typ).Elem()
+				o := evaluate(ev, map[string]interface{}{"v": arr.Interface()})
+				if o.Class() != "E" && bad[gi] == "" {
+					bad[gi] = fmt.Sprintf("%s on %s: %s", ev.Expression(), typ, o.String())
+				}
+				o2 := evaluate(ev2, map[string]interface{}{"l": []interface{}{arr.Interface()}})
+				if o2.Class() != "E" && bad[gi] == "" {
+					bad[gi] = fmt.Sprintf("%s on %s: %s", ev2.Expression(), typ, o2.String())
+				}
+			}
+		}()
+	}
+	ready.Wait()
+	close(gate)
+	done.Wait()
+	for _, b := range bad {
+		if b != "" {
+			c.Violation("C12 concurrent-result-differs fresh-types", "matches on a value of a fresh, non-convertible type did not return an error under concurrency", map[string]any{"detail": b})
+			break
+		}
+	}
+	c.Add("concurrent_calls", G*16)
+	c.Count("fresh_type_first_sight_rounds")
+}
+
 func c12Run(c *mon.Ctx, idx int) {
 	procs := []int{16, 4, 2}[idx%3]
 	old := runtime.GOMAXPROCS(procs)
 	defer runtime.GOMAXPROCS(old)
 	c12ColdStart(c)
+	c12FreshTypes(c)
 	c12FilterArrays(c)
 	r := c.RNG(idx)
 	nEval := tierN(c.Tier, 110, 600)
@@ -439,7 +508,7 @@ func init() {
 		SingleProcess: true,
 		Extra:         map[string]any{"race": true},
 		Required: func(tier string) []string {
-			return []string{"evaluators_shared", "cold_start_concurrent_creations", "shared_filter_over_mixed_container_types", "concurrent_calls", "overlapping_call_pairs", "evaluators_with_overlapping_first_calls", "race_log_inspected", "evaluator_kind:fixed", "evaluator_kind:random", "evaluator_kind:hook-gosched", "evaluator_kind:unknown", "evaluator_kind:tag"}
+			return []string{"evaluators_shared", "cold_start_concurrent_creations", "shared_filter_over_mixed_container_types", "fresh_type_first_sight_rounds", "evaluator_kind:unknown+quantifier", "evaluator_kind:unknown+hook+quantifier", "concurrent_calls", "overlapping_call_pairs", "evaluators_with_overlapping_first_calls", "race_log_inspected", "evaluator_kind:fixed", "evaluator_kind:random", "evaluator_kind:hook-gosched", "evaluator_kind:unknown", "evaluator_kind:tag"}
 		},
 		Post: func(a *mon.Agg) {
 			if a.Counters["harness_only_race_blocks"] > 0 {
